@@ -155,11 +155,12 @@ func (c *Ctx) writersTable(rule, owner, field string, methods map[string]bool, a
 		return s.Kind == SColl && s.Field == field && strings.HasPrefix(s.Owner, owner) && methods[s.Method]
 	}) {
 		o.Sites++
-		r := fnShort(s.Root())
-		seen[r] = true
-		o.Note(r + " " + s.Method + " @" + c.W.Pos(s.Pos))
-		if !al[r] {
-			o.Fail(c.W.Pos(s.Pos), fmt.Sprintf("%s.%s in %s: not in the allowed writer table", field, s.Method, r), nil)
+		for _, r := range eff.OwnerNames(s) {
+			seen[r] = true
+			o.Note(r + " " + s.Method + " @" + c.W.Pos(s.Pos) + attributedNote(s, r))
+			if !al[r] {
+				o.Fail(c.W.Pos(s.Pos), fmt.Sprintf("%s.%s in %s%s: not in the allowed writer table", field, s.Method, r, attributedNote(s, r)), nil)
+			}
 		}
 	}
 	for a := range al {
@@ -167,6 +168,14 @@ func (c *Ctx) writersTable(rule, owner, field string, methods map[string]bool, a
 			o.Fail("-", "expected writer "+a+" not found (instance floor)", nil)
 		}
 	}
+}
+
+// attributedNote: " (via helper)" when the site sits in a transparent helper of its owner.
+func attributedNote(s *Site, owner string) string {
+	if in := fnShort(s.Root()); in != owner {
+		return " (via " + in + ")"
+	}
+	return ""
 }
 
 // noSites: zero sites expected (positive control is in selftest witnesses).
@@ -253,7 +262,7 @@ func propC02(c *Ctx) {
 		}
 	})
 	c.Rule("C02.R3", func() {
-		c.writersTable("C02.R3", "ophost/keeper.Keeper", "ProvenWithdrawals", setOf("Set"), []string{"(ophost/keeper.Keeper).RecordProvenWithdrawal"})
+		c.writersTable("C02.R3", "ophost/keeper.Keeper", "ProvenWithdrawals", setOf("Set"), []string{"(ophost/keeper.MsgServer).FinalizeTokenWithdrawal", "(ophost/keeper.Keeper).InitGenesis"})
 		c.noCollSites("C02.R3", "ophost/keeper.Keeper", "ProvenWithdrawals", setOf("Remove", "Clear"))
 		rec := c.Method(hostKeeper, "Keeper", "RecordProvenWithdrawal")
 		eff := c.W.BuildEffects()
@@ -682,7 +691,7 @@ func propC05(c *Ctx) {
 	})
 
 	c.Rule("C05.R5", func() {
-		c.writersTable("C05.R5", "ophost/keeper.Keeper", "OutputProposals", setOf("Set"), []string{"(ophost/keeper.Keeper).SetOutputProposal"})
+		c.writersTable("C05.R5", "ophost/keeper.Keeper", "OutputProposals", setOf("Set"), []string{"(ophost/keeper.MsgServer).ProposeOutput", "(ophost/keeper.Keeper).InitGenesis"})
 		eff := c.W.BuildEffects()
 		sop := c.Method(hostKeeper, "Keeper", "SetOutputProposal")
 		o := c.Ob("C05.R5", "callers of SetOutputProposal = {ProposeOutput, InitGenesis}")
